@@ -204,7 +204,11 @@ macro_rules! kproof {
         #[kani::stub(alloc::fmt::format, crate::kani_verif::hstub::fmt_stub)]
         #[kani::stub(zeroize::optimization_barrier, crate::kani_verif::hstub::noop_barrier)]
         $(#[$m])*
-        fn $name() $body
+        fn $name() {
+            $body;
+            // vacuity guard: the end of every obligation must be reachable (checked by the driver)
+            kani::cover!(true, "VACUITY-GUARD: the end of the obligation is reachable");
+        }
     };
 }
 pub(crate) use kproof;
